@@ -12,6 +12,8 @@ What the extraction drops or rewrites is exactly (and is echoed into the evidenc
   * attribute lines (`#[inline]`, `#[must_use]`, `#[cfg_attr(..)]`, derives) and comments;
   * `-> T` becomes `-> (ret: T)` so that the postcondition can name the result;
   * with drop=debug_assert: `debug_assert!`/`debug_assert_eq!` statements;
+  * with dropstmt=<prefix>[@@<prefix>..]: every statement that starts with the prefix (event publication such as
+    `publisher.on_duplicate_packet( .. );`, `tracing::error!( .. );`), up to its terminating `;`;
   * every `subst` pair listed in the directive (stated token substitutions, e.g. a trait call that Verus
     does not know replaced by the equivalent core function).
 Nothing else of the function body is touched.  If an anchor is not found: ExtractError -> undecided."""
@@ -156,6 +158,46 @@ def strip_comments_and_attrs(code):
     return "\n".join(l.rstrip() for l in text.split("\n") if l.strip() != "")
 
 
+
+def drop_statements(body, prefix, what):
+    """Removes every statement that starts with `prefix` (up to the `;` that ends it at nesting depth 0).
+    Used for event-publication statements (`publisher.on_*( .. );`): declared drop, echoed into the evidence."""
+    out = body
+    n = 0
+    while True:
+        m = find_code(out, r"(?<![\w\.])" + re.escape(prefix))
+        if not m:
+            break
+        # must be at statement start: previous non-space char is one of `{ } ;`
+        k = m.start() - 1
+        while k >= 0 and out[k] in " \t\n":
+            k -= 1
+        if k >= 0 and out[k] not in "{};":
+            raise ExtractError("`%s` is not at the start of a statement in %s" % (prefix, what))
+        i = m.start()
+        depth = 0
+        while i < len(out):
+            kind, j = _scan(out, i)
+            if kind == "code":
+                c = out[i]
+                if c in "([{":
+                    depth += 1
+                elif c in ")]}":
+                    depth -= 1
+                    if depth < 0:
+                        raise ExtractError("statement `%s` has no terminating `;` in %s" % (prefix, what))
+                elif c == ";" and depth == 0:
+                    break
+            i = j
+        else:
+            raise ExtractError("statement `%s` not terminated in %s" % (prefix, what))
+        out = out[:m.start()] + out[i + 1:]
+        n += 1
+    if n == 0:
+        raise ExtractError("statement `%s` to drop not found in %s" % (prefix, what))
+    return out, n
+
+
 def splice_fn(rel, impl_sel, fn_name, opts, contract_lines):
     path = os.path.join(REPO, rel)
     if not os.path.exists(path):
@@ -177,6 +219,9 @@ def splice_fn(rel, impl_sel, fn_name, opts, contract_lines):
         if body2 != body:
             dropped.append("%s::%s: debug_assert! statements" % (impl_sel, fn_name))
         body = body2
+    for pre in [p for p in opts.get("dropstmt", "").split("@@") if p]:
+        body, cnt = drop_statements(body, pre, fn_name)
+        dropped.append("%s::%s: %d statement(s) starting with `%s` dropped (declared drop: event publication / tracing, no effect on the contracted state)" % (impl_sel, fn_name, cnt, pre))
     if "assign_ops" in opts.get("desugar", ""):
         # `place += expr;` / `place -= expr;` on newtype fields -> the method call the operator stands for (Verus
         # attaches fixed specs to the operator traits, so the impls are spliced as inherent fns); an integer literal
@@ -243,6 +288,9 @@ def splice_item(rel, prefix, opts=None):
         code = "#[derive(%s)]\n%s" % (", ".join(want), code)
         d[0] = "item `%s`: attributes and comments, except derive(%s) kept from the source%s" % (
             prefix, ", ".join(x for x in want if x != "Structural"), " (+ Verus marker Structural)" if "Structural" in want else "")
+    for pre in [p for p in (opts or {}).get("dropstmt", "").split("@@") if p]:
+        code, cnt = drop_statements(code, pre, prefix)
+        d.append("item `%s`: %d statement(s) starting with `%s` dropped (declared drop: event publication / tracing)" % (prefix, cnt, pre))
     for pair in [p for p in (opts or {}).get("subst", "").split("@@") if p]:
         a, b = pair.split("=>", 1)
         if a not in code:
